@@ -19,6 +19,12 @@ Three kinds of cases
          replace_tensor, rescaling to a given norm) that ends with the caller's own canonical_form.  Every truncation of the history is judged like
          a tree case, with the parameter VALUES the caller put into the object and the dense state right
          before the call as the reference.
+         [round 7] the parameter object is an SVDParameters, a subclass the library defines (BUGConfig) or a caller's dataclass
+         subclass; between the truncations its fields are re-assigned (both directions), it is copied / deep-copied / pickled /
+         dataclasses.replace()d, a construction with invalid values is rejected; between the caller's canonical_form and the
+         truncation the state is observed (is_in_canonical_form, full scalar product, norm, expectation value) and the centre
+         node is split by a bare split_node_svd / split_node_qr (one node more; reference = the tree right before the call);
+         rejected calls (svd_truncation without recorded centre, split of an unknown node) must leave the state as it was.
 """
 from __future__ import annotations
 
@@ -188,6 +194,37 @@ def make_params(mbd, rel, tot, renorm, sum_trunc, sum_renorm):
 
 def mbd_value(m):
     return INF if m == "inf" else int(m)
+
+
+# ---- parameter objects of the histories (kind hist) -----------------------------------------------
+HIST_ATTR = {"mbd": "max_bond_dim", "rel": "rel_tol", "tot": "total_tol", "renorm": "renorm", "sum_trunc": "sum_trunc",
+             "sum_renorm": "sum_renorm"}
+HIST_CLASSES = ["SVDParameters", "BUGConfig", "TruncationSettings"]
+
+
+def hist_attr_value(key, v):
+    """case spelling of a parameter value -> what the caller writes into the object"""
+    if key == "mbd":
+        return mbd_value(v)
+    if key in ("rel", "tot"):
+        return float(v)
+    return bool(v)
+
+
+def hist_values(case):
+    """Replay of the parameter-object part of a history WITHOUT the library: the parameter VALUES (case spelling) the caller's
+    object holds at each truncation of the history and at the final direct call -> (list per run, final)"""
+    vals = {k: case[k] for k in HIST_ATTR}
+    per_run = []
+    for run in case["runs"]:
+        for op in run.get("pobj", []):
+            if op[0] == "set":
+                vals[op[1]] = op[2]
+            elif op[0] == "clone" and op[1] == "replace":
+                vals.update(op[2])
+        per_run.append(dict(vals))
+    return per_run, dict(vals)
+
 
 
 VAL_MBD = [{"t": "int", "v": 3}, {"t": "int", "v": 1}, {"t": "int", "v": 0}, {"t": "int", "v": -2},
@@ -577,7 +614,19 @@ class C10(Prop):
             "/ rank-deficient operators, absorb_matrix (2x2, any leg of dimension 2, virtual legs included), replace_tensor with a "
             "random tensor, rescaling to norm 0.01..10 at the recorded "
             "centre -- ending with the caller's canonical_form whenever a tensor was modified; every truncation judged by "
-            "the tree oracle with the parameter values of the case and the dense state right before the call. non-trivial: sv = at least two values, tsvd = matricisation with both sides >= 2, tree = at least one bond, hist = some state with a bond; "
+            "the tree oracle with the parameter values of the case and the dense state right before the call. "
+            "Round 7 (hist): the shared parameter object is an SVDParameters, a subclass the library defines (BUGConfig) or a caller's "
+            "dataclass subclass; before a truncation its fields are re-assigned (max_bond_dim raised / lowered / lifted to inf, tolerances, "
+            "sum_trunc, sum_renorm), the used object is replaced by its copy / deepcopy / pickle round trip / dataclasses.replace (with or "
+            "without a changed field), a construction with invalid values is rejected and the caller carries on -- every truncation is "
+            "judged with the VALUES the object holds at that moment (replayed without the library); in half of the runs the caller, after "
+            "his last canonical_form, observes the state (is_in_canonical_form, scalar_product without the centre shortcut, norm, a "
+            "tensor-product expectation value) and/or splits the recorded centre node by a bare split_node_svd (no truncation) / "
+            "split_node_qr -- the new node, child or new parent (possibly new root) of the centre node, takes a random non-empty part of "
+            "its children / open legs and the isometric factor, the centre node keeps its identifier -- so the truncated tree has one "
+            "node more than was built and the reference structure is the tree right before the call; rejected calls (svd_truncation of a "
+            "fresh state without recorded centre, split_node_svd of an unknown node) must raise and leave structure, recorded centre and "
+            "dense state as they were, the history continues. non-trivial: sv = at least two values, tsvd = matricisation with both sides >= 2, tree = at least one bond, hist = some state with a bond; "
             "distinct by content")
     clauses = [
         ("F", "kept part is a non-empty prefix of the descending spectrum, second component the complementary suffix, "
@@ -652,7 +701,10 @@ class C10(Prop):
               "reused across several truncations of different states and a later direct truncate_singular_values call, and in "
               "which the truncated state was reached through canonical_form / centre moves / in-place operator applications / "
               "tensor replacement / rescaling followed by the caller's canonical_form (reference: dense contraction of the state "
-              "right before each call): runtime check"),
+              "right before each call): runtime check; [round 7] also when the object's fields are re-assigned between the "
+              "truncations, when it is a library-defined subclass (BUGConfig) or a copy / deepcopy / pickle / dataclasses.replace of "
+              "the used object, when the state was observed and its centre node split by a bare split after the caller's "
+              "canonical_form, and after rejected calls (state unchanged by a call that raises)"),
         ("V", "truncated_tensor_svd / contr_truncated_svd_splitting on random tensors and leg bipartitions: number of kept values "
               "= the rule applied to the harness' own singular values, U/Vh sliced to isometries of that width, U S Vh = (rescaled) "
               "best rank-k approximation, ||T - U S Vh|| = Frobenius weight of the discarded values <= their sum, the three "
@@ -712,9 +764,9 @@ class C10(Prop):
 
     # ---- hist: histories around the tree-level routines ----------------------------------------------------
     @staticmethod
-    def _tree_params(rng):
+    def _tree_params(rng, lossy=False):
         """parameter values of a hist case (decimal strings; float(...) of them is what the code receives)"""
-        mode = rng.random()
+        mode = 1.0 if lossy else rng.random()
         if mode < 0.15:                          # nothing can be discarded
             return dict(mbd="inf", rel="-inf", tot="-inf", sum_trunc=False)
         if mode < 0.25:                          # only exact zeros / noise can be discarded
@@ -772,10 +824,50 @@ class C10(Prop):
                     prep.append(["norm", rng.choice([0.01, 0.1, 1.0, 1.0])])
                 prep.append(["canon", X])
             run["prep"] = prep
+            # [round 7] what the caller does between his last canonical_form and the truncation: OBSERVATIONS (is_in_canonical_form,
+            # the full-contraction scalar product, norm, an expectation value -- they leave the state alone) and a BARE SPLIT of the
+            # recorded centre node (split_node_svd without truncation / split_node_qr; the part that keeps the identifier holds the
+            # non-isometric factor, so the state stays canonical at the recorded centre; the new node is a child or the new parent of it)
+            post = []
+            if rng.random() < 0.5:
+                obs_kinds = ["is_canon", "is_canon", "scal_full", "norm", "expect"]
+                for _ in range(rng.choice([0, 1, 1, 2])):
+                    post.append(["observe", rng.choice(obs_kinds)])
+                if rng.random() < 0.75:
+                    post.append(["split", rng.choice(["svd", "svd", "qr"]), rng.choice(["down", "down", "up"]), rng.randrange(10 ** 6)])
+                    if rng.random() < 0.25:
+                        post.append(["observe", rng.choice(obs_kinds)])
+            run["post"] = post
+            # [round 7] rejected calls the caller recovers from: svd_truncation of a state without recorded centre (first thing on a
+            # fresh state), a split of a node that does not exist; the state has to be what it was
+            rej = []
+            if run["tree"] == "new" and rng.random() < 0.12:
+                rej.append("svd_no_centre")
+            if rng.random() < 0.08:
+                rej.append("split_unknown")
+            run["rejects"] = rej
+            # [round 7] what happens to the parameter object before this truncation: fields re-assigned (both directions), the used
+            # object copied / deep-copied / pickled / dataclasses.replace()d and the copy used from then on, a construction with
+            # invalid values rejected
+            pobj = []
+            for _ in range(rng.choice([0, 1, 1, 2]) if r > 0 else rng.choice([0, 0, 0, 1])):
+                x = rng.random()
+                if x < 0.6:
+                    key = "mbd" if rng.random() < 0.6 else rng.choice(["rel", "tot", "sum_trunc", "sum_renorm"])
+                    pobj.append(["set", key, self._tree_params(rng, lossy=True)[key] if key != "sum_renorm" else rng.random() < 0.5])
+                elif x < 0.9:
+                    how = rng.choice(["copy", "deepcopy", "pickle", "replace"])
+                    ch = {}
+                    if how == "replace" and rng.random() < 0.6:
+                        ch["mbd"] = rng.choice([1, 2, 3, 4, "inf"])
+                    pobj.append(["clone", how, ch])
+                else:
+                    pobj.append(["reject", rng.choice([{"max_bond_dim": 0}, {"max_bond_dim": 2.5}, {"rel_tol": -0.5}, {"total_tol": -0.001}])])
+            run["pobj"] = pobj
             runs.append(run)
         probe = sorted([Fraction(rng.randint(0, 24), 8) for _ in range(rng.randint(1, 8))], reverse=True)
         return {"kind": "hist", "seed": rng.randrange(10 ** 9), "complex": rng.random() < 0.7, "runs": runs,
-                "probe": [str(x) for x in probe], "renorm": rng.random() < 0.15, "sum_renorm": rng.random() < 0.5,
+                "cls": rng.choice(HIST_CLASSES), "probe": [str(x) for x in probe], "renorm": rng.random() < 0.15, "sum_renorm": rng.random() < 0.5,
                 **self._tree_params(rng)}
 
     def generate(self, ctx, stream, budget_scale=1):
@@ -945,6 +1037,23 @@ class C10(Prop):
                         c["hist-run:modified in place, then canonical_form"] += 1
                     elif not kinds:
                         c["hist-run:fresh state, no recorded centre"] += 1
+                    post = [o[0] + ":" + o[1] for o in r.get("post", [])]
+                    if any(o.startswith("observe") for o in post):
+                        c["hist-run:observations (is_in_canonical_form / full scalar product / norm / expectation value) before the truncation"] += 1
+                    if any(o.startswith("split") for o in post):
+                        c["hist-run:bare split of the centre node requested before the truncation"] += 1
+                    for o in r.get("pobj", []):
+                        c["hist-params:" + (o[0] + " " + o[1] if o[0] != "reject" else "rejected construction, caller carries on")] += 1
+                    for o in r.get("rejects", []):
+                        c["hist-run:rejected call requested (" + o + ")"] += 1
+                if "cls" in x:
+                    c["hist:class=" + x["cls"]] += 1
+                    vs = hist_values(x)[0]
+                    for a, b in zip(vs, vs[1:]):
+                        if a["mbd"] != b["mbd"]:
+                            c["hist:consecutive truncations with max_bond_dim " + ("raised" if mbd_value(b["mbd"]) > mbd_value(a["mbd"]) else "lowered")] += 1
+                        elif a != b:
+                            c["hist:consecutive truncations with another field changed"] += 1
         for why, k in getattr(self, "dropped", {}).items():
             c["not in the exact tie (float-unsafe):" + why] += k
         for why, k in getattr(self, "boundary_dev", {}).items():
@@ -1188,15 +1297,89 @@ class C10(Prop):
             worst = max(worst, float(np.max(np.abs(m.conj().T @ m - np.eye(m.shape[1])))) if m.size else 0.0)
         return worst
 
+    @staticmethod
+    def _hist_split(work, op, new_id):
+        """bare split of the recorded centre node: the new node `new_id` gets the isometric factor (U / Q) and a non-empty part
+        of the children / open legs (variant 'up': also the parent leg, it becomes the parent of the centre node; 'down': it
+        becomes a child), the centre node keeps its identifier and the rest of the legs.  Returns what was done (or why not)."""
+        from pytreenet.core.leg_specification import LegSpecification
+        from pytreenet.util.tensor_splitting import SVDParameters
+        c = work.orthogonality_center_id
+        if c is None:
+            return "no recorded centre"
+        node = work.nodes[c]
+        r2 = random.Random(op[3])
+        children, opens = list(node.children), list(node.open_legs)
+        legs = [("c", x) for x in children] + [("o", x) for x in opens]
+        up = op[2] == "up"
+        if len(legs) < (1 if up and not node.is_root() else 2) or (up and len(legs) < 2 and node.is_root()):
+            return "too few legs"
+        if up and not node.is_root():
+            k = r2.randint(0, len(legs) - 1)          # the new node has the parent leg anyway
+        else:
+            k = r2.randint(1, len(legs) - 1)
+        r2.shuffle(legs)
+        mine, rest = legs[:k], legs[k:]
+        if not rest:
+            return "too few legs"
+        sub = lambda part, t: [x for tt, x in part if tt == t]  # noqa
+        if up:
+            new_legs = LegSpecification(node.parent, sub(mine, "c"), sub(mine, "o"), is_root=node.is_root())
+            old_legs = LegSpecification(None, sub(rest, "c"), sub(rest, "o"))
+        else:
+            new_legs = LegSpecification(None, sub(mine, "c"), sub(mine, "o"))
+            old_legs = LegSpecification(node.parent, sub(rest, "c"), sub(rest, "o"), is_root=node.is_root())
+        if op[1] == "svd":
+            work.split_node_svd(c, new_legs, old_legs, u_identifier=new_id, v_identifier=c,
+                                svd_params=SVDParameters(max_bond_dim=INF, rel_tol=-INF, total_tol=-INF))
+        else:
+            work.split_node_qr(c, new_legs, old_legs, q_identifier=new_id, r_identifier=c)
+        return f"{new_id} {'above' if up else 'below'} {c} with {[x for _, x in mine]}"
+
     def _hist_impl(self, case):
+        import dataclasses
+        import pickle
         from pytreenet.util import tensor_splitting as ts
-        p, verdict = make_params(mbd_value(case["mbd"]), float(case["rel"]), float(case["tot"]), case["renorm"],
-                                 case["sum_trunc"], case["sum_renorm"])
+        from pytreenet.core.truncation.svd_truncation import svd_truncation
+        from pytreenet.core.leg_specification import LegSpecification
+        if "cls" in case:
+            from props.c11 import param_classes
+            cls = param_classes()[case["cls"]]
+            try:
+                p, verdict = cls(**{HIST_ATTR[k]: hist_attr_value(k, case[k]) for k in HIST_ATTR}), "Accept"
+            except Exception as e:  # noqa
+                return {"verdict": f"{type(e).__name__}: {e}", "runs": []}
+        else:
+            p, verdict = make_params(mbd_value(case["mbd"]), float(case["rel"]), float(case["tot"]), case["renorm"],
+                                     case["sum_trunc"], case["sum_renorm"])
         ob = {"verdict": verdict, "runs": []}
         work = None
         for j, run in enumerate(case["runs"]):
             rng = random.Random(case["seed"] * 31 + j)
             nprs = np.random.RandomState(rng.randrange(2 ** 31))
+            # ---- the parameter object before this truncation
+            try:
+                for op in run.get("pobj", []):
+                    if op[0] == "set":
+                        setattr(p, HIST_ATTR[op[1]], hist_attr_value(op[1], op[2]))
+                    elif op[0] == "clone":
+                        if op[1] == "copy":
+                            p = copy.copy(p)
+                        elif op[1] == "deepcopy":
+                            p = copy.deepcopy(p)
+                        elif op[1] == "pickle":
+                            p = pickle.loads(pickle.dumps(p))
+                        else:
+                            p = dataclasses.replace(p, **{HIST_ATTR[k]: hist_attr_value(k, v) for k, v in op[2].items()})
+                    else:
+                        try:
+                            type(p)(**op[1])
+                        except Exception:  # noqa
+                            pass
+            except Exception as e:  # noqa
+                ob["runs"].append({"pobj_exception": f"{op}: {type(e).__name__}: {e}"})
+                work = None
+                continue
             if run["tree"] == "new":
                 par = run["parents"]
                 work = util.build_ttns(rng, par, bond=run["bond"], complex_=case["complex"])
@@ -1205,15 +1388,30 @@ class C10(Prop):
                 ob["runs"].append({"skipped": "no state left by the previous run"})
                 continue
             n = len(par)
-            ids = sorted(f"n{i}" for i in range(n))
-            ro = {"n": n, "verdict": verdict, "parents": par}
+            ro = {"n": n, "verdict": verdict, "parents": par, "rejected": []}
+
+            def rejected(what, call):
+                ids_r = sorted(work.nodes)
+                st0, d0, c0 = util.structure_unordered(work), util.dense_vec(work, ids_r), work.orthogonality_center_id
+                try:
+                    with warnings.catch_warnings():
+                        warnings.simplefilter("ignore")
+                        call()
+                    ro["rejected"].append([what, "accepted", None])
+                except Exception as e:  # noqa
+                    same = (sorted(work.nodes) == ids_r and util.structure_unordered(work) == st0
+                            and work.orthogonality_center_id == c0
+                            and float(np.linalg.norm(util.dense_vec(work, ids_r) - d0)) <= 1e-12 * max(1.0, float(np.linalg.norm(d0))))
+                    ro["rejected"].append([what, f"{type(e).__name__}", bool(same)])
             try:
+                if "svd_no_centre" in run.get("rejects", []) and work.orthogonality_center_id is None:
+                    rejected("svd_truncation of a state without recorded centre", lambda: svd_truncation(work, p))
                 for op in run["prep"]:
                     nid = f"n{op[1]}"
                     if op[0] == "norm":
                         # what TTNS.normalise does (scale the recorded centre, else the root), with the norm taken from the
                         # independent dense contraction and the factor applied through absorb_into_open_legs
-                        cur = float(np.linalg.norm(util.dense_vec(work, ids)))
+                        cur = float(np.linalg.norm(util.dense_vec(work, sorted(work.nodes))))
                         nid = work.orthogonality_center_id or work.root_id
                         if cur > 0 and math.isfinite(cur):
                             d = work.nodes[nid].open_dimension()
@@ -1227,6 +1425,8 @@ class C10(Prop):
                     elif op[0] in ("absorb", "legmat"):
                         if op[0] == "absorb":
                             d, kind, mag = work.nodes[nid].open_dimension(), op[2], float(op[3])
+                            if work.nodes[nid].nopen_legs() != 1:
+                                continue                               # (a node an earlier bare split left without / with several open legs)
                         else:
                             # absorb_matrix accepts 2x2 matrices only (it tests len(matrix) != 2): legs of dimension 2
                             legs = [a for a, dd in enumerate(work.nodes[nid].shape) if dd == 2]
@@ -1250,7 +1450,40 @@ class C10(Prop):
                     elif op[0] == "replace":
                         shape = tuple(work.nodes[nid].shape)
                         work.replace_tensor(nid, util.rand_tensor(nprs, shape, case["complex"]) * float(op[2]))
+                # ---- [round 7] observations and a bare split between the caller's canonical_form and the truncation
+                ro["post_done"] = []
+                for i, op in enumerate(run.get("post", [])):
+                    if op[0] == "observe":
+                        if any(x.startswith("split: s") for x in ro["post_done"]) and \
+                                any(nd.nopen_legs() != 1 for nd in work.nodes.values()):
+                            # TreeTensorNetworkState promises its contractions for one open leg per node only
+                            ro["post_done"].append(f"{op[1]} skipped (a node without / with several open legs)")
+                            continue
+                        with warnings.catch_warnings():
+                            warnings.simplefilter("ignore")
+                            if op[1] == "is_canon":
+                                val = work.is_in_canonical_form()
+                            elif op[1] == "scal_full":
+                                val = work.scalar_product(use_orthogonal_center=False)
+                            elif op[1] == "norm":
+                                val = work.norm()
+                            else:
+                                from pytreenet.operators.tensorproduct import TensorProduct
+                                cand = [x for x in sorted(work.nodes) if work.nodes[x].nopen_legs() == 1]
+                                tp = {}
+                                for x in cand[:2]:
+                                    d = work.nodes[x].open_dimension()
+                                    tp[x] = util.rand_tensor(nprs, (d, d), case["complex"])
+                                val = work.operator_expectation_value(TensorProduct(tp))
+                        ro["post_done"].append(f"{op[1]} -> {val}")
+                    else:
+                        ro["post_done"].append("split: " + self._hist_split(work, op, f"s{j}x{i}"))
+                if "split_unknown" in run.get("rejects", []):
+                    rejected("split_node_svd of a node that is not in the tree",
+                             lambda: work.split_node_svd("no_such_node", LegSpecification(None, [], [0]), LegSpecification(None, [], [1]),
+                                                         u_identifier="u_new", v_identifier="v_new"))
                 rid = work.root_id
+                ids = sorted(work.nodes)
                 before = util.dense_vec(work, ids)
                 ro["norm"] = float(np.linalg.norm(before))
                 c = work.orthogonality_center_id
@@ -1258,6 +1491,9 @@ class C10(Prop):
                 if c is not None and run["prep"] and run["prep"][-1][0] == "canon":
                     ro["defect"] = self._centre_defect(work, c)
                 struct0 = util.structure_unordered(work)
+                # the reference for `identifiers and parent/child relations preserved': the tree right before the call
+                ro["ids0"] = ids
+                ro["bonds0"] = sorted([nid, work.nodes[nid].parent] for nid in work.nodes if work.nodes[nid].parent is not None)
             except Exception as e:  # noqa
                 import traceback
                 ro["prep_exception"] = f"{type(e).__name__}: {e}"
@@ -1299,6 +1535,10 @@ class C10(Prop):
                     for run, ro in zip(c["runs"], ob["runs"]):
                         if "calls" in ro:
                             hstats["runs"] += 1
+                            if any(str(x).startswith("split: s") for x in ro.get("post_done", [])):
+                                hstats["runs after a bare split of the centre node (tree has one node more than built)"] += 1
+                            for x in ro.get("rejected", []):
+                                hstats["rejected call: " + x[0] + " -> " + x[1] + (", state as before" if x[2] else "")] += 1
                             hstats["runs that discard something"] += int(any(len(x[2]) for x in ro["calls"]))
                             if any(o[0] in ("absorb", "replace", "legmat") for o in run["prep"]) or run["tree"] == "same":
                                 hstats["runs on a modified state re-canonicalised by the caller"] += 1
@@ -1623,7 +1863,9 @@ class C10(Prop):
             return f"valid parameters rejected: {ob['verdict']}"
         if not ob["returns_same_object"]:
             return "does not return the (modified) tree it was given"
-        if ob["ids"] != sorted(f"n{i}" for i in range(n)) or not ob["struct_same"] or not ob["root_same"]:
+        ids0 = ob.get("ids0") or sorted(f"n{i}" for i in range(n))       # (hist: the tree right before the call)
+        n = len(ids0)
+        if ob["ids"] != ids0 or not ob["struct_same"] or not ob["root_same"]:
             return f"{case['algo']}: node identifiers / parent-child relations changed: {ob['ids']}"
         if not ob["consistent"]:
             return f"{case['algo']}: tensor shapes inconsistent with the node legs or across a bond"
@@ -1635,7 +1877,7 @@ class C10(Prop):
                 return f"{case['algo']}: bond dimension {b} outside [1, {case['mbd']}] (bonds {ob['bonds']})"
         if len(ob["calls"]) != n - 1:
             return f"{case['algo']}: {len(ob['calls'])} truncations for {n - 1} bonds"
-        bonds_expected = sorted([f"n{i}", f"n{case['parents'][i]}"] for i in range(1, n))
+        bonds_expected = ob.get("bonds0") or sorted([f"n{i}", f"n{case['parents'][i]}"] for i in range(1, n))
         if sorted(ob["visits"]) != bonds_expected:
             return f"{case['algo']}: bonds truncated {ob['visits']}, expected every (child, parent) bond exactly once"
         if not ob["finite"]:
@@ -1661,29 +1903,46 @@ class C10(Prop):
 
     def _oracle_hist(self, case, ob):
         """every truncation of the history is judged exactly like a tree case: by the property text with the parameter
-        VALUES the caller put into the object, on the state as it is right before the call"""
+        VALUES the caller's object holds at that moment, on the state as it is right before the call"""
         if ob["verdict"] != "Accept":
-            return f"valid parameters rejected: {ob['verdict']}"
+            return f"valid parameters rejected: {case.get('cls', 'SVDParameters')}: {ob['verdict']}"
+        per_run, final = hist_values(case)
+
+        def descr(j):
+            out = []
+            for r, ro in zip(case["runs"][:j + 1], ob["runs"][:j + 1]):
+                t = f"{'same state again' if r['tree'] == 'same' else 'new state on parents ' + str(r['parents'])}: "
+                if r.get("pobj"):
+                    t = f"parameter object: {r['pobj']}; " + t
+                t += f"{r['prep']}"
+                if r.get("post"):
+                    t += f" then {ro.get('post_done', r['post'])}"
+                out.append(t + f" then {r['algo']}")
+            return f"{case.get('cls', 'SVDParameters')}({self._pstr(case)}) shared by the history ({' | '.join(out)})"
         for j, (run, ro) in enumerate(zip(case["runs"], ob["runs"])):
             if "skipped" in ro:
                 continue
+            if "pobj_exception" in ro:
+                return f"{descr(j)}: handling the parameter object raised {ro['pobj_exception']}"
+            for what, how, same in ro.get("rejected", []):
+                if same is False:
+                    return f"{descr(j)}: {what} raised {how} and left a different state / structure / recorded centre behind"
             if "prep_exception" in ro:
                 return None                    # the preparing operations are other properties' business (C02, C03)
-            sub = dict(case, algo=run["algo"], parents=ro["parents"])
+            sub = dict(case, algo=run["algo"], parents=ro["parents"], **per_run[j])
             w = self._oracle_tree(sub, ro)
             if w:
-                hist = [f"{'same state again' if r['tree'] == 'same' else 'new state on parents ' + str(r['parents'])}: "
-                        f"{r['prep']} then {r['algo']}" for r in case["runs"][:j + 1]]
                 extra = ""
                 if ro.get("defect") is not None:
                     extra = (f"; right before the call the caller's canonical_form('{ro['centre']}') had returned (recorded centre "
                              f"before it: {ro.get('centre_before_last_canon')}), isometry defect of the state w.r.t. that centre "
                              f"{ro['defect']:.3e}")
-                return f"truncation {j + 1} of a history sharing one SVDParameters object ({' | '.join(hist)}): {w}{extra}"
+                return f"truncation {j + 1} of {descr(j)}, parameter values now {self._pstr(sub)}: {w}{extra}"
+        sub = dict(case, **final)
         if "probe_exception" in ob:
-            return f"truncate_singular_values({case['probe']}) with the same parameter object after the history raised {ob['probe_exception']}"
-        r = self._check_call(case, f"after {len(case['runs'])} tree truncation(s) with the same parameter object: truncate_singular_values",
-                             ob["probe"])
+            return (f"truncate_singular_values({case['probe']}) with the same parameter object ({self._pstr(sub)}) after "
+                    f"{descr(len(case['runs']) - 1)} raised {ob['probe_exception']}")
+        r = self._check_call(sub, f"after {descr(len(case['runs']) - 1)}: truncate_singular_values", ob["probe"])
         return r if isinstance(r, str) else None
 
     def _oracle_tsvd(self, case, ob):
